@@ -766,16 +766,26 @@ func (e *Exec) qPost(c *Cmd, sg segment.Segment, sl *slots) string {
 			var nb *roaring.Bitmap
 			if rs == "*" {
 				nb = oi.ActualBitmap().Clone()
-			} else {
-				nb, err = bitmapOf(rs)
-				if err != nil {
-					return "scripterror:replace"
+			} else if strings.HasPrefix(rs, "sub:") {
+				// a subset of the actual bitmap: keep the i-th live doc iff bit (i mod 16) of the mask is set
+				mask, _ := strconv.Atoi(rs[4:])
+				nb = roaring.New()
+				for i, d := range oi.ActualBitmap().ToArray() {
+					if mask&(1<<(uint(i)%16)) != 0 {
+						nb.Add(d)
+					}
 				}
+			} else {
+				return "scripterror:replace"
 			}
 			oi.ReplaceActual(nb)
 		}
 	}
 	e.stat("post.rep." + rep)
+	if live == "-" {
+		// an empty described set is reported uniformly, whichever object represents it
+		rep = "none"
+	}
 	var hits []string
 	for _, op := range parseStrList(c.str("ops", "-")) {
 		var p segment.Posting
